@@ -42,7 +42,7 @@ Step(op) == l <= N /\ Ev.op = op /\ l' = l + 1
 
 TraceInit == InitFor(1) /\ l = 1
 
-Keep == UNCHANGED <<sc, tip, sub, app, pc, utxo, pool1, pool2, offered, mustKeep, stale>>
+Keep == UNCHANGED <<sc, tip, sub, app, pc, utxo, pool1, pool2, offered, mustKeep, kept0, stale>>
 
 TReset ==
     /\ Step("Reset")
@@ -51,7 +51,7 @@ TReset ==
     /\ pc' = IdlePc
     /\ utxo' = Scens[Ev.sc].creates[1] \ Scens[Ev.sc].spends[1]
     /\ pool1' = <<>> /\ pool2' = <<>>
-    /\ offered' = {} /\ mustKeep' = {}
+    /\ offered' = {} /\ mustKeep' = {} /\ kept0' = {}
     /\ stale' = FALSE
     /\ obs' = ObsOK /\ reply' = NoReply /\ act' = [op |-> "Init"]
 
@@ -72,8 +72,9 @@ TObs ==
        /\ IF stale \/ Ev.full
             THEN LET K == IF Ev.full THEN Closure(mustKeep \cap (SeqSet(p1) \cup SeqSet(p2)), utxo) ELSE mustKeep IN
                  /\ mustKeep' = K
+                 /\ kept0' = IF Ev.full THEN Closure(kept0 \cap (SeqSet(p1) \cup SeqSet(p2)), utxo) ELSE kept0
                  /\ AllowedPool(p1, p2, K)
-            ELSE /\ p1 = pool1 /\ p2 = pool2 /\ mustKeep' = mustKeep
+            ELSE /\ p1 = pool1 /\ p2 = pool2 /\ mustKeep' = mustKeep /\ kept0' = kept0
        /\ pool1' = p1 /\ pool2' = p2
        /\ Len(Ev.eph) = Len(p2)
        /\ \A j \in 1..Len(p2) : ToSet(Ev.eph[j]) = EphAtTip(p2[j])
